@@ -20,7 +20,10 @@ def opHistogram (j : Json) : R Json := do
 
 /-- ops contributed by the component files -/
 def allOps : List (String × (Json → R Json)) :=
-  Jaqal.Emulator.ops ++ Jaqal.NumText.ops ++ Jaqal.UnitTiming.ops ++ Jaqal.Walk.ops
+  Jaqal.Emulator.ops ++ Jaqal.NumText.ops ++ Jaqal.UnitTiming.ops ++ Jaqal.Walk.ops ++ Jaqal.Result.ops ++ Jaqal.ParserOps.ops ++ Jaqal.FrontEnds.ops ++ Jaqal.GateDef.ops ++ Jaqal.PassOps1.ops
+
+def opGrammarTable (_ : Json) : R Json :=
+  pure (jofList (fun (p : String × List String) => Json.arr #[.str p.1, jofList Json.str p.2]) Jaqal.Grammar.productions)
 
 def dispatch (op : String) (j : Json) : R Json :=
   match op with
@@ -28,6 +31,7 @@ def dispatch (op : String) (j : Json) : R Json :=
   | "of_str" => opOfStr j
   | "view_keys" => opViewKeys j
   | "histogram" => opHistogram j
+  | "grammar_table" => opGrammarTable j
   | _ =>
     match allOps.lookup op with
     | some f => f j
